@@ -607,4 +607,41 @@ def shrink(case, obs, fp, matcher, deadline):
     return case, obs
 
 
-KNOWN_PREDICATES = {}
+def _pred_sdiv_floor_rounding(case, obs):
+    """The open finding: StridedInterval.sdiv bounds the quotient with Python's floor division where bvsdiv truncates.  A failure
+    is that finding iff it is a plain sdiv case and EVERY concrete quotient missing from the observed result comes from a pair whose
+    floor and truncated quotients differ (operands of different sign, remainder not zero).  The result itself is not part of the
+    identification: it depends on the iteration order of a set inside the division and so on the hash seed."""
+    import re
+
+    if case.get("chain") or case.get("op") != "sdiv" or case.get("b") in (None, "empty") or case.get("a") == "empty":
+        return False
+    n = case["bits"]
+    m = re.fullmatch(r"<(\d+)>(\d+)\[(\d+),(\d+)\](R?)", obs.get("result", ""))
+    if m:
+        if int(m.group(1)) != n or m.group(5):
+            return False
+        got = sg.mask_of(n, int(m.group(2)), int(m.group(3)), int(m.group(4)))
+    elif obs.get("result") == f"<{n}>empty":
+        got = 0
+    else:
+        return False
+    xs = case.get("xs") or sg.members(sg.gamma_mask(sg.make(n, tuple(case["a"]))))
+    ys = case.get("ys") or sg.members(sg.gamma_mask(sg.make(n, tuple(case["b"]))))
+    sgn = lambda v: v - (1 << n) if v >> (n - 1) else v  # noqa: E731
+    missing_any = False
+    for x in xs:
+        for y in ys:
+            if y == 0:
+                continue
+            q = ir.bv_binop("bvsdiv", x, y, n)
+            if (got >> q) & 1:
+                continue
+            missing_any = True
+            sx, sy = sgn(x), sgn(y)
+            if not (sx % sy != 0 and (sx < 0) != (sy < 0)):
+                return False  # a quotient that floor rounding does not explain is missing: something else
+    return missing_any
+
+
+KNOWN_PREDICATES = {"sdiv_floor_rounding": _pred_sdiv_floor_rounding}
